@@ -251,6 +251,22 @@ def check_cross_dialect(case, stats):
     pk = gh.Compiler(g).compile(dict(r[1], uri="u"))
     if steps and [s_["type"] for s_ in pk[0]["steps"]] != fold(want):
         raise Violation(case, "matcher default %s, document header %s: pickle step types %r, expected %r" % (d1, d2, [s_["type"] for s_ in pk[0]["steps"]], fold(want)))
+    # ONE parser (and its builder) and ONE compiler for a document of the other dialect using the keyword first, then this one - with a
+    # matcher of its own for every parse, and with one matcher for both
+    for shared_matcher in (False, True):
+        g2 = gh.IdGenerator()
+        parser, compiler = gh.Parser(gh.AstBuilder(g2)), gh.Compiler(g2)
+        m2 = gh.TokenMatcher(d1)
+        for dd in (d1, d2):
+            r2 = gh.parse(doc_using(dd, k), d1, parser=parser, matcher=m2 if shared_matcher else gh.TokenMatcher(d1))
+            if r2[0] != "ok":
+                raise Violation(case, "re-used parser rejects the %s document: %r" % (dd, r2[1][:2]))
+            pk2 = compiler.compile(dict(r2[1], uri="u"))
+        steps2 = [s_ for ch in r2[1]["feature"]["children"] if "scenario" in ch for s_ in ch["scenario"]["steps"]]
+        got2 = [s_["keywordType"] for s_ in steps2]
+        if got2 != want or (steps2 and [s_["type"] for s_ in pk2[0]["steps"]] != fold(want)):
+            raise Violation(case, "one parser and one compiler (%s) for a %s document and then a %s document that both use %r: keyword types %r / pickle step types %r, the %s table gives %r / %r" % (
+                "one matcher" if shared_matcher else "a new matcher per parse", d1, d2, k, got2, [s_["type"] for s_ in pk2[0]["steps"]] if steps2 else [], d2, want, fold(want)))
 
 
 def unit_cross(a):
